@@ -14,10 +14,8 @@ type heapItem struct {
 }
 
 func (h *maxHeap) Push(point orb.Pointer, distance float64) {
-	prevLen := len(*h)
-	*h = (*h)[:prevLen+1]
-	(*h)[prevLen].point = point
-	(*h)[prevLen].distance = distance
+	// append: the heap grows on demand, it need not have been allocated with room for k+1 items
+	*h = append(*h, heapItem{point: point, distance: distance})
 
 	i := len(*h) - 1
 	for i > 0 {
